@@ -306,7 +306,9 @@ def _run(ctx, rng, thorough, T):
             signed = os.path.join(T, f'signed{ti}.wbn')
             if ti % 2 == 0: stale(signed, 300000)
             rc5, _, err5 = sh([B('sign-bundle'), 'signatures-section', '-i', outp, '-o', signed, '-certificate', chain, '-privateKey', keypem,
-                               '-validityUrl', 'https://example.com/validity', '-miRecordSize', str([16384, 16, 4096, 1][ti % 4])])
+                               '-validityUrl', 'https://example.com/validity', '-miRecordSize', str([16384, 16, 4096, 1][ti % 4])]
+                              # the maximum lifetime (the signing instant is time.Now(): it has a sub-second part), the default, and an odd one
+                              + [[], ['-expire', '168h'], ['-expire', '167h59m59.5s']][(ti // 2) % 3])
             rec(ctx, 'c20.sign-bundle-signatures tree=%d' % ti, 'exit %d %s' % (rc5, err5.decode()[-100:].strip() if rc5 else ''), 'exit 0 ')
             if rc5 == 0:
                 rc6, out6, _ = sh([B('dump-bundle'), '-i', signed])
